@@ -19,7 +19,7 @@
 //!   advance <ms>                     block          release <n>       nop
 //! observation:
 //!   build=[wid.aid,..] start=[aid:id:key,..] disc=[Reason:id,..] hook=[..] acc=[id:a|b|x,..]
-//!   up=<0|1> q=<n|x> act=<n|x> cap=<n|x> live=[aid,..]
+//!   up=<0|1> q=<n|x> act=<n|x> cap=<n|x> live=[aid,..] wq=<[wid:len,..] after the step's last route_message | ->
 
 use hutil::{Args, Log, Rng, Stats};
 use ractor::factory::queues::{DefaultQueue, PriorityManager, PriorityQueue, Queue, StandardPriority};
@@ -64,6 +64,8 @@ struct Shared {
     cc_armed: bool,
     cc_entered: bool,
     cc_gate: Option<oneshot::Sender<usize>>,
+    /// worker queue lengths right after the last `route_message` of this step
+    wq: Option<Vec<(usize, usize)>>,
 }
 type Sh = Arc<Mutex<Shared>>;
 
@@ -188,6 +190,43 @@ impl RateLimiter for Lim {
         if let Lim::On(l) = self {
             l.bump()
         }
+    }
+}
+
+/// Transparent router wrapper: records every worker's queue length right after each
+/// `route_message` (the point "after a dispatch has been processed").
+struct Spy<R> {
+    inner: R,
+    sh: Sh,
+}
+impl<R: Router<K, M>> Router<K, M> for Spy<R> {
+    fn route_message(
+        &mut self,
+        job: Job<K, M>,
+        pool_size: usize,
+        worker_hint: Option<WorkerId>,
+        worker_pool: &mut HashMap<WorkerId, ractor::factory::WorkerProperties<K, M>>,
+    ) -> Result<ractor::factory::routing::RouteResult<K, M>, ActorProcessingErr> {
+        let r = self.inner.route_message(job, pool_size, worker_hint, worker_pool);
+        let mut v: Vec<(usize, usize)> = worker_pool.iter().map(|(w, p)| (*w, p.verif_queued_job_count())).collect();
+        v.sort();
+        self.sh.lock().unwrap().wq = Some(v);
+        r
+    }
+    fn choose_target_worker(
+        &mut self,
+        job: &Job<K, M>,
+        pool_size: usize,
+        worker_hint: Option<WorkerId>,
+        worker_pool: &HashMap<WorkerId, ractor::factory::WorkerProperties<K, M>>,
+    ) -> Option<WorkerId> {
+        self.inner.choose_target_worker(job, pool_size, worker_hint, worker_pool)
+    }
+    fn is_factory_queueing(&self) -> bool {
+        self.inner.is_factory_queueing()
+    }
+    fn on_worker_availability_change(&mut self, wid: WorkerId, available: bool) {
+        self.inner.on_worker_availability_change(wid, available)
     }
 }
 
@@ -335,6 +374,7 @@ impl H {
         starts.sort();
         let discs = std::mem::take(&mut s.discs);
         let hooks = std::mem::take(&mut s.hooks);
+        let wq = s.wq.take();
         let nbuilt = s.next_aid;
         drop(s);
         // acceptance replies
@@ -365,7 +405,7 @@ impl H {
         let up = if self.factory.get_status() == ActorStatus::Stopped { 0 } else { 1 };
         let j = |v: &[String]| v.join(",");
         let obs = format!(
-            "build=[{}] start=[{}] disc=[{}] hook=[{}] acc=[{}] up={} q={} act={} cap={} live=[{}]{}",
+            "build=[{}] start=[{}] disc=[{}] hook=[{}] acc=[{}] up={} q={} act={} cap={} live=[{}] wq={}{}",
             j(&builds),
             j(&starts.iter().map(|(a, i, k)| format!("{a}:{i}:{k}")).collect::<Vec<_>>()),
             j(&discs),
@@ -376,6 +416,10 @@ impl H {
             act,
             cap,
             j(&live.iter().map(|v| v.to_string()).collect::<Vec<_>>()),
+            match wq {
+                Some(v) => format!("[{}]", j(&v.iter().map(|(w, l)| format!("{w}:{l}")).collect::<Vec<_>>())),
+                None => "-".to_string(),
+            },
             if mapfail { " MAPFAIL" } else { "" }
         );
         (format!("t={t_op},{tq},{te}"), obs)
@@ -526,14 +570,14 @@ where
     let args = FactoryArguments::builder()
         .num_initial_workers(cfg.n)
         .queue(queue)
-        .router(RateLimitedRouter::builder().router(router).rate_limiter(lim).build())
+        .router(Spy { inner: RateLimitedRouter::builder().router(router).rate_limiter(lim).build(), sh: sh.clone() })
         .worker_builder(Box::new(GB { sh: sh.clone() }))
         .maybe_discard_handler(if cfg.dh { Some(Arc::new(Disc { sh: sh.clone() }) as Arc<dyn DiscardHandler<K, M>>) } else { None })
         .discard_settings(parse_disc(&cfg.disc))
         .lifecycle_hooks(Box::new(Hooks { sh: sh.clone() }))
         .maybe_capacity_controller(if cfg.cc { Some(Box::new(CC { sh: sh.clone() }) as Box<dyn WorkerCapacityController>) } else { None })
         .build();
-    let def = Factory::<K, M, (), GW, RateLimitedRouter<R, Lim>, Q>::default();
+    let def = Factory::<K, M, (), GW, Spy<RateLimitedRouter<R, Lim>>, Q>::default();
     let (factory, _handle) = Actor::spawn(None, def, args).await.expect("factory spawn");
     let fid = factory.get_id().pid();
     let mut h = H { factory, fid, sh: sh.clone(), t0, acc: vec![], blocked: false, live: vec![] };
